@@ -1339,6 +1339,13 @@ def _num(t):
         return _Fr(t[1]).limit_denominator(10 ** 12)
     if t[0] == "cast":
         return _num(t[2])
+    # constant folding of `CONST + 1`-style expressions (named constants are already their values)
+    if t[0] == "field" and t[2] == "0" and strip(t[1])[0] == "bin" and strip(t[1])[1].endswith("WithOverflow"):
+        t = strip(t[1])
+    if t[0] == "bin" and t[1] in ("Add", "Sub", "Mul", "AddWithOverflow", "SubWithOverflow", "MulWithOverflow"):
+        a, b = _num(t[2]), _num(t[3])
+        if a is not None and b is not None:
+            return a + b if t[1].startswith("Add") else (a - b if t[1].startswith("Sub") else a * b)
     return None
 
 
